@@ -64,15 +64,15 @@ Notation constructs_rules := (constructs_rules cerr plural_construct lang rules)
 
 (* the process form of a call IS the resolver of ResolverModel.v: answered by the sequential table of ResolverModel.v
    (`interp`), it returns what ResolverModel.format_pattern returns — same text, same scope (errors, calls, counters) up to
-   the memoizer, same final table; same Panic / OutOfFuel otherwise.  For every flavour, fuel, pattern, table. *)
+   the memoizer, same final table; same Panic / OutOfFuel otherwise.  For every flavour, fuel, pattern (and its identity `top`), table. *)
 Theorem C15_process_is_resolver :
-  forall fl args fuel p c,
+  forall fl args fuel top p c,
     agree (interp rules
              (format_pattern_p overflow_checks call_function transform formatter as_string as_string_threadsafe
-                unescape_write unescape_to_string f64_from_str fl b args fuel p) c)
+                unescape_write unescape_to_string f64_from_str fl b args fuel top p) c)
           (format_pattern overflow_checks call_function transform formatter rules
              (stringify_value as_string as_string_threadsafe fl)
-             unescape_write unescape_to_string f64_from_str b args fuel p c).
+             unescape_write unescape_to_string f64_from_str b args fuel top p c).
 Proof. intros. apply format_pattern_p_eq. Qed.
 
 (* "returns, for every (message, arguments) request issued from any thread under any interleaving, exactly the text and errors
@@ -92,7 +92,7 @@ Theorem C15_schedule_indep :
       nth_error (s_threads s) tid = Some th -> In (rq, r) (t_done th) ->
       (exists text sc, r = Done (text, sc)) /\
       forall c, cache_ok rules c ->
-        r = observe_f (format (fr_args rq) (fuel_of b (fr_pattern rq)) (fr_pattern rq) c).
+        r = observe_f (format (fr_args rq) (fuel_of b (fr_pattern rq)) (fr_top rq) (fr_pattern rq) c).
 Proof.
   intros programs sched Hv Hc.
   exact (sched_indep overflow_checks call_function transform formatter as_string as_string_threadsafe unescape_write
@@ -183,7 +183,7 @@ Theorem C15_custom_values :
     r1 = r2 /\
     r1 = observe_f (format_pattern overflow_checks call_function transform formatter rules as_string_threadsafe
                       unescape_write unescape_to_string f64_from_str b (fr_args rq) (fuel_of b (fr_pattern rq))
-                      (fr_pattern rq) []).
+                      (fr_top rq) (fr_pattern rq) []).
 Proof. exact custom_values. Qed.
 
 (* ---------- non-vacuity: a concrete bundle, three threads, every schedule ---------- *)
@@ -206,7 +206,8 @@ Definition ex_b : bundle := Bundle [(s "sel", EMessage (Some ex_pattern) [])] fa
 Definition num (digits : string) (ty : ntype) : fvalue :=
   VNumber (FNum (FDec false (s digits) [])
                 (NOptions ty StyleDecimal None CurSymbol true None None None None None)).
-Definition ex_rq (n : fvalue) : frequest := FReq (Some [(s "c", VCustom (s "x")); (s "n", n)]) ex_pattern.
+Definition ex_rq (n : fvalue) : frequest :=
+  FReq (Some [(s "c", VCustom (s "x")); (s "n", n)]) (Some (PKey false (s "sel") None)) ex_pattern.
 
 Definition ex_explore (programs : list (list frequest)) :=
   explore true ex_call None None ex_nts ex_ts ex_id ex_id f64_from_str_exact unit ex_construct ex_b 40
@@ -230,7 +231,7 @@ Proof. vm_compute. split; reflexivity. Qed.
 (* the same requests single-threaded (ResolverModel.format_pattern, cold memoizer) *)
 Example C15_example_sequential :
   map (fun n => match format_pattern true ex_call None None (rules_for_locale ex_lang) ex_ts ex_id ex_id f64_from_str_exact ex_b
-                        (fr_args (ex_rq n)) (fuel_of ex_b ex_pattern) ex_pattern [] with
+                        (fr_args (ex_rq n)) (fuel_of ex_b ex_pattern) (fr_top (ex_rq n)) ex_pattern [] with
                 | Done (t, sc) => Some (t, sc_errors sc) | _ => None end)
       [num "1" Cardinal; num "2" Ordinal; num "5" Cardinal; num "1" Ordinal]
   = [Some (s "one <ts:x>", []); Some (s "two", []); Some (s "other", []); Some (s "one <ts:x>", [])].
